@@ -160,8 +160,8 @@ def run(ctx):
     trun = os.path.join(common.BUILD, "ocaml", "tailrec", "run")
     names = vmcheck.opcode_names()
     quick = ctx.tier == "quick"
-    N1, N2 = (5000, 50000) if quick else (50000, 500000)
-    nrandom = 70 if quick else 500
+    N1, N2 = (5000, 50000) if quick else (30000, 300000)
+    nrandom = 70 if quick else 400
     stats = collections.Counter()
     dist = collections.Counter()
     nviol = [0]
